@@ -540,9 +540,9 @@ func c06Registration(r *core.Run, root []*ssa.Function, ro *muxRoles) {
 // muxRoles are the role-resolved unexported anchors of the mux.
 type muxRoles struct {
 	nodeNodes, nodeParam, nodeWild, nodeHs, nodeParams, nodeListeners core.Field
-	nmNode, nmMountIdx, nmParams                                   core.Field
-	ppIdx, gpIdx, rhGroup, muxParent, muxSvc                       core.Field
-	matchNode, fetch, add, setParams, parseGroup, toString         *ssa.Function
+	nmNode, nmMountIdx, nmParams                                      core.Field
+	ppIdx, gpIdx, rhGroup, muxParent, muxSvc                          core.Field
+	matchNode, fetch, add, setParams, parseGroup, toString            *ssa.Function
 }
 
 func resolveMuxRoles(r *core.Run) *muxRoles {
